@@ -747,6 +747,71 @@ func authDirected(o authGenOpts) []Case {
 			cases = append(cases, g.Case("directed:same-name-two-types "+pair[0]))
 		}
 	}
+	// 11. F39: unlimited scopes. An unlimited desired scope (ContextWithScope(ctx, UnlimitedScope()), which ocifilter.Sub
+	// passes through) and an unlimited required scope have no text a token server could be asked for: the token
+	// request names the challenge scope and the limited ones (never "*"), the token is good for what was asked and
+	// no more, and only the configured access token (cfg 3) serves a request that requires everything. cfg 2 takes
+	// the same requests through the pre-emptive (refresh token) acquisition.
+	if o.prop == "C10" {
+		bar := "repository:bar:pull"
+		for _, cfgKind := range []int{0, 1, 2, 3, 4} {
+			// the auditor's conversation: foo, foo again (cache hit), then bar (the foo token does not cover it)
+			g := newAuthCaseGen(NewRNG(1), o)
+			g.cfg(0, cfgKind)
+			a := mk(0, 0, pull, "")
+			a.want = "*"
+			a.reg[0] = regReply{status: 401, hdrs: []string{bearerHdr(realm0, "svc0", pull)}}
+			allTok(a, grantTok("Tfoo", 3600))
+			g.add(a)
+			b := mk(0, 1, pull, "")
+			b.want = "*"
+			allTok(b, grantTok("Tnever", 3600))
+			g.add(b)
+			c := mk(0, 2, bar, "")
+			c.want = "*"
+			c.reg[0] = regReply{status: 401, hdrs: []string{bearerHdr(realm0, "svc0", bar)}}
+			allTok(c, grantTok("Tbar", 3600))
+			g.add(c)
+			d := mk(0, 3, both, "") // the challenge names less than is required
+			d.want = "*"
+			d.reg[0] = regReply{status: 401, hdrs: []string{bearerHdr(realm0, "svc0", pull)}}
+			allTok(d, grantTok("Tboth", 3600))
+			g.add(d)
+			e := mk(0, 4, push, "") // the wide request is refused: the retry asks for the challenge scope alone
+			e.want = "*"
+			e.reg[0] = regReply{status: 401, hdrs: []string{bearerHdr(realm0, "svc0", "repository:zot:push")}}
+			allTok(e, tokReply{kind: 's', status: 401})
+			e.tok[0][1][0], e.tok[0][1][1] = grantTok("TnarrowPre", 3600), grantTok("TnarrowPreG", 3600)
+			e.tok[1][1][0], e.tok[1][1][1] = grantTok("Tnarrow", 3600), grantTok("TnarrowG", 3600)
+			g.add(e)
+			cases = append(cases, g.Case(fmt.Sprintf("directed:unlimited-desired cfg=%d", cfgKind)))
+
+			// an unlimited required scope, desired pull / unlimited / none
+			g = newAuthCaseGen(NewRNG(1), o)
+			g.cfg(0, cfgKind)
+			a = mk(0, 0, "", pull)
+			a.required = "*"
+			a.reg[0] = regReply{status: 401, hdrs: []string{bearerHdr(realm0, "svc0", push)}}
+			allTok(a, grantTok("Tpp", 3600))
+			g.add(a)
+			b = mk(0, 1, "", "") // Tpp was asked for pull+push: it does not cover "everything"
+			b.required, b.want = "*", "*"
+			b.reg[0] = regReply{status: 401, hdrs: []string{bearerHdr(realm0, "svc0", bar)}}
+			allTok(b, grantTok("Tbar", 3600))
+			g.add(b)
+			c = mk(0, 2, both, "") // ... but it covers pull+push
+			allTok(c, grantTok("Tnever", 3600))
+			g.add(c)
+			d = mk(0, 3, "", "")
+			d.required, d.want = "*", "-"
+			d.reg[0] = regReply{status: 401, hdrs: []string{bearerHdr(realm0, "svc0", "repository:zot:push")}}
+			allTok(d, tokReply{kind: 's', status: 401})
+			d.tok[0][1][0], d.tok[0][1][1] = grantTok("TemptyPre", 3600), grantTok("TemptyPreG", 3600)
+			d.tok[1][1][0], d.tok[1][1][1] = grantTok("Tzot", 3600), grantTok("TzotG", 3600)
+			g.add(d)
+			cases = append(cases, g.Case(fmt.Sprintf("directed:unlimited-required cfg=%d", cfgKind)))
+		}
+	}
 	// 9. real time, two overlapping requests: the registry sits on its answer to the first for 2.6 s
 	// while the second gets a 2 s token and completes; whatever the first then sends, it is not that token
 	if o.prop == "C10" {
